@@ -574,3 +574,34 @@ def fresh(prefix, sort="real"):
 
 def reset_fresh():
     _fresh_counter[0] = 0
+
+
+def resolve_ites(term, hyps, timeout_ms=2000):
+    """Replace if-then-else sub-terms whose condition is decided by the hypotheses (one solver call per condition)."""
+    if not is_sym(term):
+        return term
+    for _ in range(20):
+        ites = [u for u in subterms(term).values() if z3.is_app(u) and u.decl().kind() == z3.Z3_OP_ITE]
+        if not ites:
+            return term
+        subs = []
+        done = set()
+        for u in ites:
+            c = u.arg(0)
+            if c.get_id() in done:
+                continue
+            done.add(c.get_id())
+            for val, cond in ((True, c), (False, z3.Not(c))):
+                s = z3.Solver()
+                s.set("timeout", timeout_ms)
+                for h in hyps:
+                    if is_sym(h):
+                        s.add(h)
+                s.add(z3.Not(cond))
+                if s.check() == z3.unsat:
+                    subs.append((c, z3.BoolVal(val)))
+                    break
+        if not subs:
+            return term
+        term = z3.simplify(z3.substitute(term, *subs))
+    return term
